@@ -269,9 +269,35 @@ def target_consumed(chk, F):
                     if g is not None and g.crate == CORE and any("Peekable::<I>::peek" in t["callee"]["path"] for _, t in g.calls() if "callee" in t):
                         return True
             return False
+        def eof_verdict(scrut):
+            """the scrutinee is a private helper's verdict on the next token (`fn leftover(iter) -> Result<(), Token>`): what the
+            helper answers when - and only when - that token is the end of the input, as pattern text (`Result::Ok(())`, `true`)"""
+            sc = scrut
+            while sc.get("k") in ("DropTemps", "Paren") and sc.get("e"):
+                sc = sc["e"]
+            if sc.get("k") != "Call" or sc["f"].get("k") != "Path":
+                return None
+            g = F.fns.get(sc["f"]["r"].get("id"))
+            if g is None or g.crate != CORE or g.raw.get("public"):
+                return None
+            for mm in hir_walk(F.hir_of(g)["body"]):
+                if mm.get("k") == "Match" and mm.get("src") == "Normal" and looks_at_next_token(mm["scrut"]):
+                    bodies = {}
+                    for a_ in mm["arms"]:
+                        b_ = a_["body"]
+                        while b_.get("k") == "Block" and not b_["stmts"] and b_.get("expr"):
+                            b_ = b_["expr"]
+                        bodies.setdefault(H.expr_str(b_, 60).replace(" ", ""), []).append(H.pat_str(a_["pat"]).replace(" ", ""))
+                    for body_txt, pats in bodies.items():
+                        if pats in (["Token::Eof"], ["Option::Some(Token::Eof)"]):
+                            return body_txt
+            return None
         if m.get("k") == "Match" and m.get("src") == "Normal" and looks_at_next_token(m["scrut"]):
+            verdict = eof_verdict(m["scrut"])
             for a in m["arms"]:
-                if H.pat_str(a["pat"]).replace(" ", "") in ("Token::Eof", "Option::Some(Token::Eof)") and any(x is c for c in ctor for x in hir_walk(a["body"])):
+                ptxt = H.pat_str(a["pat"]).replace(" ", "")
+                at_end = ptxt in ("Token::Eof", "Option::Some(Token::Eof)") or (verdict is not None and ptxt == verdict)
+                if at_end and any(x is c for c in ctor for x in hir_walk(a["body"])):
                     gated_ids |= {id(c) for c in ctor if any(x is c for x in hir_walk(a["body"]))}
     # the unit-list form is built from parse_unitlist, which itself only succeeds at the end of the input
     lists = [c for c in ctor if "Conversion::List" in H.expr_str(c, 200)]
@@ -306,8 +332,9 @@ def target_consumed(chk, F):
     eg = 0
     for m in hir_walk(h["body"]):
         if m.get("k") == "Match" and m.get("src") == "Normal" and looks_at_next_token(m["scrut"]):
+            verdict = eof_verdict(m["scrut"])
             for a in m["arms"]:
-                if "Token::Eof" in H.pat_str(a["pat"]):
+                if "Token::Eof" in H.pat_str(a["pat"]) or (verdict is not None and H.pat_str(a["pat"]).replace(" ", "") == verdict):
                     eg += sum(1 for c in ector if any(x is c for x in hir_walk(a["body"])))
     chk.decide(bool(ector) and eg == len(ector), "target-consumed", fk, "expression-only-at-end-of-input", "%s:%d" % (fn.file, ector[0]["line"] if ector else 0),
                "Query::Expr is built only when the whole input has been read",
